@@ -11,15 +11,16 @@ def run(chk, replay=None):
                 "window flag combinations, redaction flag sets, challenge / no challenge; unmodified CLI behind the impersonating proxy; non-trivial = distinct worlds")
     worlds = []
     hostsets = [['h1.example.net:27017'], ['node-c.ex.net:27017', 'node-a.ex.net', 'node-b.ex.net:27018'], ['a-00-02.x.mongodb.net:27017', 'a-00-00.x.mongodb.net:27017', 'a-00-01.x.mongodb.net:27017'],
-                ['zeta.ex.net:3', 'alpha.ex.net', 'mid.ex.net:27017', 'beta.ex.net:1'], ['h%d.ex.net:2701%d' % (i, i) for i in range(5)]]
-    n = 14 if th else 7
+                ['zeta.ex.net:3', 'alpha.ex.net', 'mid.ex.net:27017', 'beta.ex.net:1'], ['h%d.ex.net:2701%d' % (i, i) for i in range(5)],
+                ['node-00.us-east.ex.net:27017', 'node-00.eu-west.ex.net:27017', 'node-01.us-east.ex.net'], ['10.0.0.1:27017', '10.0.0.2:27017', '10.0.1.1:27018']]
+    n = 21 if th else 7
     for i in range(n):
-        hs = hostsets[i % len(hostsets)]
+        hs = hostsets[(i + chk.seed) % len(hostsets)] if i >= len(hostsets) else hostsets[i]
         srv = False   # mongodb+srv needs a DNS SRV lookup (connstring.Parse): not available offline; Atlas' `standard` string is never SRV
         if srv: hs = ['cluster0.abcde.mongodb.net']
         payloads = []
         for h in hs:
-            k = rng.choice([0, 1, 3, 40 if th else 12])
+            k = rng.choice([0, 1, 3, 40 if th else 12]) if i < 5 else rng.choice([1, 2, 3])
             data = b''.join(rng.choice(pool) + b'\n' for _ in range(k))
             payloads.append((data, streamlib.gz_bytes(data, members=rng.choice([1, 1, 3]))))
         window = rng.choice([None, None, (1700000000, 1700003600), (5, 6)])
